@@ -195,6 +195,8 @@ func c02Leaves() []model.Leaf {
 	add(lf("i", "isnotnull", "none"))
 	add(lf("i", "fn:odd", "none"))
 	add(lf("i", "fn:gt1", "none"))
+	add(lf("i", "fn:eq-1", "none"))
+	add(lf("i", "fn:eq-2", "none"))
 	{
 		l := lf("i", "fn:lt", "col")
 		l.ArgCol = "i2"
@@ -278,6 +280,17 @@ func c02Leaves() []model.Leaf {
 		add(lf(col, "isnotnull", "none"))
 		add(lf(col, "fn:nil", "none"))
 		add(lf(col, "fn:nonempty", "none"))
+		add(lf(col, "fn:eq-a", "none"))
+		add(lf(col, "fn:eq-b", "none"))
+		{
+			// two in-lists that print alike: ["a b"] and ["a", "b"]
+			l := lf(col, "in", "strings")
+			l.List = []model.Cell{model.S("a b")}
+			add(l)
+			l = lf(col, "in", "strings")
+			l.List = []model.Cell{model.S("a"), model.S("b")}
+			add(l)
+		}
 		for _, fn := range []string{"fn:samenil", "fn:lt"} {
 			l := lf(col, fn, "col")
 			l.ArgCol = col + "2"
